@@ -90,7 +90,8 @@ func (sp *SAMLServiceProvider) VerifyAssertionConditions(assertion *types.Assert
 		return nil, ErrParsing{Tag: NotOnOrAfterAttr, Value: conditions.NotOnOrAfter, Type: "time.RFC3339"}
 	}
 
-	if now.After(notOnOrAfter) {
+	// NotOnOrAfter is exclusive: the assertion is no longer valid at that instant.
+	if !now.Before(notOnOrAfter) {
 		warningInfo.InvalidTime = true
 	}
 
@@ -230,7 +231,8 @@ func (sp *SAMLServiceProvider) Validate(response *types.Response) error {
 		}
 
 		now := sp.Clock.Now()
-		if now.After(notOnOrAfter) {
+		// NotOnOrAfter is exclusive: expired at that instant, not only after it.
+		if !now.Before(notOnOrAfter) {
 			return ErrInvalidValue{
 				Reason:   ReasonExpired,
 				Key:      NotOnOrAfterAttr,
